@@ -367,6 +367,14 @@ def classify_return(fi: FuncInfo, r: ast.Return) -> str:
     return txt[:50]
 
 
+def _positive(e, pol):
+    """(`x is not None`, False) says (`x is None`, True); (`a != b`, False) says (`a == b`, True)"""
+    if isinstance(e, ast.Compare) and len(e.ops) == 1 and isinstance(e.ops[0], (ast.IsNot, ast.NotEq)):
+        op = ast.Is() if isinstance(e.ops[0], ast.IsNot) else ast.Eq()
+        return ast.copy_location(ast.Compare(left=e.left, ops=[op], comparators=e.comparators), e), not pol
+    return e, pol
+
+
 def _is_none_test(e, names) -> bool:
     return (
         isinstance(e, ast.Compare)
@@ -386,7 +394,7 @@ def dest_is_fresh_here(fi: FuncInfo, node, var: str) -> bool:
     from ..rewrite import single_bindings
 
     binds = single_bindings(fi)
-    for e, pol in guard_facts(fi, node):
+    for e, pol in [_positive(e_, p_) for e_, p_ in guard_facts(fi, node)]:
         if not pol:
             continue
         if _is_none_test(e, {var, "dest"}):
@@ -414,7 +422,7 @@ def returns_only_without_dest(fi: FuncInfo, r: ast.Return, dest_vars) -> bool:
     val = norm(r.value)
     for alt in alts:
         good = False
-        for e, pol in alt:
+        for e, pol in [_positive(e_, p_) for e_, p_ in alt]:
             if pol and _is_none_test(e, dest_vars):
                 good = True
             if pol and isinstance(e, ast.Compare) and len(e.ops) == 1 and isinstance(e.ops[0], ast.Eq):
